@@ -10,6 +10,11 @@ From ApiFu Require Import Base.Sexp Gen.GoTypes Gen.ClientGenModel Gen.DecodeMod
 Import ListNotations.
 Open Scope string_scope.
 
+(** User.login, Node.id and the enum value Color.dark_blue are deprecated (all three are selected /
+    returned in the example) *)
+Definition ex_deprecations : deprecations :=
+  {| dep_fields := [(bs "User", bs "login"); (bs "Node", bs "id")]; dep_values := [(bs "Color", bs "dark_blue")] |}.
+
 Example c20_hypotheses_hold :
   env ex_schema ex_doc = true /\ schema_loadable ex_schema = true /\
   excl_member_clash ex_schema ex_doc = false /\ decl_safe ex_schema ex_doc = true /\
@@ -19,14 +24,14 @@ Proof. repeat split; try (vm_compute; reflexivity). left. reflexivity. Qed.
 
 (** the theorems instantiated: a program is generated, is well formed, and decodes the response *)
 Example c20_instance :
-  exists p, generate_real ex_schema (doc_valid ex_schema ex_doc) ex_doc = GOk p /\ wf_program p = true /\
+  exists p, generate_real ex_deprecations ex_schema (doc_valid ex_schema ex_doc) ex_doc = GOk p /\ wf_program p = true /\
     exists n v, (forall fuel, (n <= fuel)%nat -> decode_op p fuel (bs "Q") (json_of ex_resp) = DOk v) /\
                 (forall pl, In pl (leaves v) <-> In pl (expected ex_schema ex_op_linked ex_resp)).
 Proof.
   destruct c20_hypotheses_hold as (H1 & HL & H2 & H3 & H4 & H5 & H6).
-  destruct (real_accepts_wf ex_schema ex_doc H1 HL H2 H3) as [p [Hg Hw]].
+  destruct (real_accepts_wf ex_deprecations ex_schema ex_doc H1 HL H2 H3) as [p [Hg Hw]].
   exists p. split; [exact Hg|]. split; [exact Hw|].
-  apply (real_decodes ex_schema ex_doc H1 HL H2 H3 p ex_op_linked (bs "Q") ex_resp Hg H4 H5 H6).
+  apply (real_decodes ex_deprecations ex_schema ex_doc H1 HL H2 H3 p ex_op_linked (bs "Q") ex_resp Hg H4 H5 H6).
 Qed.
 
 (** the instance is not trivial: the response has leaves below fragments of both concrete types *)
@@ -50,3 +55,12 @@ Example c20_load_types :
   load_type ex_schema (TList (TNonNull (TNamed (bs "User")))) = Some (TList (TNonNull (TNamed (bs "User")))) /\
   load_type ex_schema t8 = None.
 Proof. repeat split; vm_compute; reflexivity. Qed.
+
+(** without includeDeprecated the example's loaded schema would lack User.login *)
+Example c20_deprecated_dropped :
+  load_schema_q the_query ex_deprecations ex_schema = Some ex_schema /\
+  match load_schema_q {| iq_fields_deprecated := false; iq_values_deprecated := true |} ex_deprecations ex_schema with
+  | Some S' => match field_type S' (bs "User") (bs "login") with None => true | Some _ => false end
+  | None => false
+  end = true.
+Proof. split; vm_compute; reflexivity. Qed.
